@@ -21,7 +21,7 @@ import json, os
 from vlib import *
 
 KINDS = {"r": 0, "s": 1, "p": 2, "c": 3}
-NQUICK, NTHOROUGH = 1200, 24000
+NQUICK, NTHOROUGH = 1000, 24000
 CONSTS = {}   # constants printed by the executor (read from the built code)
 
 
@@ -48,6 +48,8 @@ class Sim:
 
         def read():
             nread[0] += 1
+            if nread[0] == 2 and "wr" in fl:
+                self.rec = tuple(fl["wr"])
             if fl.get("r%d" % nread[0], 0):
                 return None
             return self.rec if self.rec else (0, 0)
@@ -61,6 +63,8 @@ class Sim:
             return True
 
         def cas(old):
+            if "wp" in fl:
+                self.rec = tuple(fl["wp"])
             m = fl.get("p", 0)
             if m == 2:
                 return None
@@ -137,11 +141,16 @@ class Sim:
 
 
 def parse_faults(fs):
+    """r1 r2 s p -> 1 (cancelled) / 2 (expired);  wp wr -> (instance id, tick) written by the executor at that point"""
     if fs == "-":
         return {}
     if fs == "REAL":
         return {"r1": 1, "r2": 1, "s": 1, "p": 1}
-    return {kv.split("=")[0]: int(kv.split("=")[1]) for kv in fs.split(",")}
+    d = {}
+    for kv in fs.split(","):
+        k, v = kv.split("=")
+        d[k] = tuple(int(x) for x in v.split(":")) if k in ("wp", "wr") else int(v)
+    return d
 
 
 # ------------------------------------------------------------------ generator
@@ -181,11 +190,25 @@ class Gen:
             for i in active:
                 self.mv(i)
 
-    def rand_fault(self):
+    def rand_write(self, i):
+        """a foreign write: by another server of the case (mostly), or by an id nobody has"""
+        r = self.rng
+        others = [x for x in range(len(self.ids)) if x != i]
+        if others and r.random() < 0.85:
+            g = r.choice(others)
+            return "%d:%d" % (self.ids[g], max(0, self.ticks[g] + r.choice([0, 1, 1, 2])))
+        return "%d:%d" % (dead_id(r, self.ids), r.randrange(0, 9))
+
+    def rand_fault(self, i=0):
         r = self.rng
         x = r.random()
         if x < 0.08:
             return "REAL"
+        if x < 0.30:
+            ks = ["%s=%s" % (r.choice(["wp", "wp", "wr"]), self.rand_write(i))]
+            if r.random() < 0.25:
+                ks.append("%s=%d" % (r.choice(["p", "r2", "s"]), r.choice([1, 2])))
+            return ",".join(ks)
         ks = []
         for k in ("r1", "s", "p", "r2"):
             if r.random() < (0.45 if k == "p" else 0.25):
@@ -212,7 +235,7 @@ class Gen:
                     paused.clear()
             cand = [i for i in range(n) if i not in paused]
             i = r.choice(cand)
-            fs = self.rand_fault() if r.random() < pfault else "-"
+            fs = self.rand_fault(i) if r.random() < pfault else "-"
             dt = 1
             x = r.random()
             if x < 0.06:
@@ -237,7 +260,7 @@ def dead_id(rng, ids):
 
 def gen_case(rng, thr, k, name):
     """k selects the profile"""
-    prof = ["takeover", "arb", "boundary", "faulty", "init-dead", "resume", "nonmono", "arb"][k % 8]
+    prof = ["takeover", "arb", "boundary", "faulty", "init-dead", "resume", "nonmono", "race"][k % 8]
     g = Gen(rng, thr, name, profile=prof)
     n = len(g.ids)
     if prof == "takeover":
@@ -271,6 +294,37 @@ def gen_case(rng, thr, k, name):
         g.mv(L)
         for f in Fs:
             g.mv(f)
+        g.fair(range(n), rng.randrange(1, 3))
+    elif prof == "race":
+        # two campaigners / a campaigner against a renewing leader, interleaved INSIDE the turn: the followers see the
+        # record unchanged until they are about to campaign; then one of them campaigns while a competitor's write
+        # (another follower's successful campaign, the old leader's renewal, a stranger) lands between its lookup
+        # and its CAS, or between its CAS and its read-back
+        if rng.random() < 0.5:
+            g.start()
+            L = rng.randrange(n)
+            g.mv(L)
+        else:
+            g.start(init=[dead_id(rng, g.ids), rng.randrange(0, 9)])
+            L = None
+        Fs = [i for i in range(n) if i != L]
+        for _ in range(thr + 1):
+            for f in Fs:
+                g.mv(f)
+        for _ in range(rng.randrange(1, 4)):
+            f = rng.choice(Fs)
+            who = rng.random()
+            others = [x for x in Fs if x != f]
+            if who < 0.5 and others:
+                w = others[rng.randrange(len(others))]
+                wr = "%d:%d" % (g.ids[w], g.ticks[w] + 1)
+            elif who < 0.75 and L is not None:
+                wr = "%d:%d" % (g.ids[L], g.ticks[L] + 1)
+            else:
+                wr = g.rand_write(f)
+            g.mv(f, "%s=%s" % (rng.choice(["wp", "wp", "wp", "wr"]), wr))
+            for x in rng.sample(range(n), rng.randrange(1, n + 1)):
+                g.mv(x)
         g.fair(range(n), rng.randrange(1, 3))
     elif prof == "faulty":
         g.start(init=[dead_id(rng, g.ids), rng.randrange(0, 9)] if rng.random() < 0.3 else None)
@@ -364,7 +418,7 @@ def monitors(c, obs, thr):
     """returns list of (monitor, turn index, message); also statistics dict"""
     ids, fails = c["ids"], []
     st = {"leader_turns": 0, "campaign_wins": 0, "step_downs": 0, "stable_rounds": 0, "takeovers": 0, "two_leaders": 0,
-          "panics": 0, "fault_turns": 0}
+          "panics": 0, "fault_turns": 0, "interfered_turns": 0, "raced_cas": 0}
     rec = tuple(c["init"]) if c["init"] else (0, 0)
     srv = [dict(role="F", cur=None) for _ in ids]
     states = []   # state after each turn: (rec, [(role, cur)])
@@ -390,18 +444,26 @@ def monitors(c, obs, thr):
         rec = o["rec"]
         if o["leaders"].count("1") > 1:
             st["two_leaders"] += 1
+        # foreign writes that landed inside this turn (only when the turn reached that operation)
+        wp = fl.get("wp") if ("wp" in fl and "p" in o["ops"]) else None
+        wr = fl.get("wr") if ("wr" in fl and o["ops"].count("r") >= 2) else None
+        if wp or wr:
+            st["interfered_turns"] += 1
+        before_cas = wp if wp else pre_rec            # the record the turn's own proposal met
         if rec[0] != pre_rec[0]:
-            holder_changed = j
+            # the mover reads at time j, a foreign write lands at j + 0.5
+            holder_changed = j if rec[0] == me else j + 0.5
         # no two lasting leaders
         for x in range(len(ids)):
             if o["leaders"][x] == "1" and last_turn[x] >= holder_changed and last_turn[x] >= 0 and ids[x] != rec[0]:
-                fails.append(("one_lasting", j, "server %d (id %d) still leads after its own turn %d although the holder is %d since turn %d"
+                fails.append(("one_lasting", j, "server %d (id %d) still leads after its own turn %d although the holder is %d since turn %s"
                               % (x, ids[x], last_turn[x], rec[0], holder_changed)))
-        # holder-only
+        # holder-only: leader after the turn => its first lookup or its read-back named it
         if o["role"] == "L":
             st["leader_turns"] += 1
-            if rec[0] != me:
-                fails.append(("holder_only", j, "server %d (id %d) is leader after its turn but the record names %d" % (i, me, rec[0])))
+            if not ((pre_rec[0] == me and not fl.get("r1", 0)) or rec[0] == me):
+                fails.append(("holder_only", j, "server %d (id %d) is leader after its turn but read %d first and the record names %d at the end"
+                              % (i, me, pre_rec[0], rec[0])))
         # step-down
         if pre["role"] == "L" and (pre_rec[0] != me or fl.get("r1", 0)):
             st["step_downs"] += 1
@@ -411,15 +473,32 @@ def monitors(c, obs, thr):
                 fails.append(("step_down", j, "leader %d wrote the record in a turn in which it had to step down" % i))
         # displacement
         if rec != pre_rec:
-            if rec[0] != me or rec[1] != tick:
-                fails.append(("displacement", j, "record became %s in a turn of server %d (id %d, tick %d)" % (rec, i, me, tick)))
-            if rec[0] != pre_rec[0] and pre_rec[0] != 0:
-                cu = pre["cur"]
-                just = (pre["role"] == "F" and cu is not None and cu[0] == pre_rec[0] and cu[1] == pre_rec[1] and cu[2] + 1 > thr)
-                if pre_rec[0] != me:
-                    st["campaign_wins"] += 1
-                    if not just:
-                        fails.append(("displacement", j, "holder %d displaced by server %d whose view before the turn was %s (threshold %d)" % (pre_rec[0], i, cu, thr)))
+            if rec != (me, tick) and rec != wp and rec != wr:
+                fails.append(("displacement", j, "record became %s in a turn of server %d (id %d, tick %d, foreign writes %s %s)" % (rec, i, me, tick, wp, wr)))
+        own_cas_won = (not wr) and rec == (me, tick) and rec != before_cas and "p" in o["ops"]
+        if own_cas_won and before_cas[0] not in (0, me):
+            st["campaign_wins"] += 1
+            cu = pre["cur"]
+            just = (pre["role"] == "F" and cu is not None and cu[0] == pre_rec[0] and cu[1] == pre_rec[1] and cu[2] + 1 > thr)
+            if not just:
+                fails.append(("displacement", j, "holder %d displaced by server %d whose view before the turn was %s (threshold %d)" % (before_cas[0], i, cu, thr)))
+        # two campaigns against one tenure: the turn read holder h = pre_rec[0]; a competitor X took the record before the
+        # turn's own CAS; unless X is the mover itself or h again, that CAS must be rejected
+        if wp and not wr and "p" in o["ops"] and o["ops"] != "?":
+            named = {me}
+            if pre_rec[0] not in (0, me):
+                named.add(pre_rec[0])
+            elif pre_rec[0] == 0:
+                named.add(pre["cur"][0] if pre["cur"] else 0)
+            if wp[0] not in named:
+                st["raced_cas"] += 1
+                if rec != wp and not fl.get("p", 0) == 2:
+                    fails.append(("cas_exclusive", j, "server %d (id %d) read holder %d, competitor %d took the record before its CAS, and its CAS still succeeded: record %s"
+                                  % (i, me, pre_rec[0], wp[0], rec)))
+                if rec != wp and fl.get("p", 0) == 2:
+                    fails.append(("cas_exclusive", j, "record changed by a proposal that was never submitted: %s" % (rec,)))
+                if o["role"] == "L" and pre_rec[0] != me:
+                    fails.append(("cas_exclusive", j, "server %d (id %d) became leader by a campaign whose CAS lost against competitor %d" % (i, me, wp[0])))
         states.append((rec, [dict(s) for s in srv]))
     # phase monitors
     def consistent_at(t):
@@ -525,7 +604,10 @@ def monitors(c, obs, thr):
 # ------------------------------------------------------------------ Coq terms
 def coq_faults(fs):
     fl = parse_faults(fs)
-    return "F %d %d %d %d" % (fl.get("r1", 0), fl.get("s", 0), fl.get("p", 0), fl.get("r2", 0))
+
+    def w(k):
+        return "(Some (%d,%d))" % fl[k] if k in fl else "None"
+    return "F %d %d %d %d,%s,%s" % (fl.get("r1", 0), fl.get("s", 0), fl.get("p", 0), fl.get("r2", 0), w("wp"), w("wr"))
 
 
 def coq_obs(o, fs):
@@ -561,6 +643,15 @@ def model_check(ck, cases, obs_by_name, thr, tag):
     bad = set()
     for si, (rc, out) in enumerate(outs):
         ix = parse_coq_list_of_nat(out, "M") if rc == 0 else None
+        for attempt in range(3):
+            if ix is not None:
+                break
+            # other people rebuild .vo files in this tree: a coqc run can meet a half-written library; retry alone
+            import time
+            time.sleep(10 * (attempt + 1))
+            rc, out = ck.coq_eval(jobs[si][0] + "r%d" % attempt, jobs[si][1], timeout=3000)
+            ix = parse_coq_list_of_nat(out, "M") if rc == 0 else None
+            ck.cov["coq_eval_retries"] = ck.cov.get("coq_eval_retries", 0) + 1
         if ix is None:
             ck.violation("model evaluation failed (coqc)", {"kind": "coq-eval", "rc": rc, "out_tail": out[-3000:]}, found_input=False)
             return None
@@ -601,7 +692,10 @@ def run(ck):
                       "fair rounds of the rest for thr+2+x rounds, old leader resumes), boundary (record seen unchanged exactly thr/thr+1/thr+2/thr+3 times, "
                       "then renewed), arb/faulty (arbitrary interleavings, pauses/resumes of whoever leads, stalled/jumping ticks, per-operation faults "
                       "r1/s/p/r2 in modes cancelled=applied-but-reported-failed and expired=not-applied, genuinely cancelled contexts), init-dead "
-                      "(record names a holder that never moves), resume, nonmono (ticks going back: the 'unknown state' panic). A case is one schedule; "
+                      "(record names a holder that never moves), resume, nonmono (ticks going back: the 'unknown state' panic), race (followers at the "
+                      "threshold; a competitor's write - another follower's campaign, the old leader's renewal, a stranger - is executed by the harness "
+                      "BETWEEN the turn's lookup and its CAS (wp) or between its CAS and its read-back (wr): operation-granularity interleaving on the "
+                      "real code; wp/wr also occur in arb/faulty). A case is one schedule; "
                       "non-trivial if some server became leader; distinct by md5 of the schedule.")
     proofs_ok = ck.proofs(["theories/ElectionRun.vo", "theories/ElectionSpec.vo", "proofs/ElectionLiveProofs.vo", "proofs/ElectionDBProofs.vo"])
     binp = ck.go_test_bin("", ["root/zz_verif_election_test.go"])
@@ -699,7 +793,7 @@ def run(ck):
         for (i, t, fs), o in zip(c["turns"], obs[c["name"]]):
             bump(dist["ops_of_a_turn"], o["ops"])
             if fs != "-":
-                bump(dist["fault_specs"], fs if fs == "REAL" else ",".join(sorted(fs.split(","))))
+                bump(dist["fault_specs"], fs if fs == "REAL" else ",".join(sorted(x.split("=")[0] if x[0] == "w" else x for x in fs.split(","))))
             bump(dist["role_after_turn"], o["role"])
             bump(dist["leaders_at_once"], str(o["leaders"].count("1")))
             if o["cur"]:
